@@ -496,7 +496,7 @@ pub fn run(cfg: RunCfg) {
         "which records are held after a restart is C02's subject; C10 checks the payment count and the agreement of the views there".into(),
     ];
     vh_core::section!(
-        rep, "capacity", (2_500, 150_000), 16,
+        rep, "capacity", (8_000, 150_000), 16,
         "non-trivial: store reached capacity and >=1 refusal and (>=1 eviction or a restart after payments); distinct by history",
         case_strategy, check
     );
